@@ -293,7 +293,12 @@ LINES_FAMILIES = {
     'lines_splits_q': dict(minlines=4, maxlines=5, alpha='MC_AlphaSplits'),
     # the pre-pass with two SELL lines on a purchase day: a holding, a purchase and two sale lines on day 2, a purchase and a
     # capital return on day 3 -- all 720 orders (the sale lines adjacent or not, the return before or after its day's purchase)
-    'lines_prepass_q': dict(minlines=6, maxlines=6, alpha='{1, 2, 6, 7, 19, 15}'),  # two reorganisations on one day, the other security's split
+    'lines_prepass_q': dict(minlines=6, maxlines=6, alpha='{1, 2, 6, 7, 19, 15}'),
+    # ... and the same with the return on a LATER day than the second purchase (two lots hold shares when it arrives, so the
+    # pre-pass's consumption of the older lot by the second sale line decides the spread): all 720 orders, as files
+    'lines_prepass2_q': dict(files=720, perm=[[1, 'AAA', 'BUY', [2, 1], [10, 1], [1, 1]], [2, 'AAA', 'BUY', [1, 1], [12, 1], [0, 1]],
+                                              [2, 'AAA', 'SELL', [1, 1], [20, 1], [1, 1]], [2, 'AAA', 'SELL', [1, 1], [17, 1], [0, 1]],
+                                              [3, 'AAA', 'BUY', [1, 1], [11, 1], [0, 1]], [5, 'AAA', 'CAPRETURN', [0, 1], [3, 1], [1, 1]]]),  # two reorganisations on one day, the other security's split
     # seeded random FILES of 8-14 lines (three securities, eight day slots, shuffled line order): beyond the exhaustive bound;
     # TLC runs Lines on each, checks the refinement onto Cgt and hands its outcome to the replay
     'lines_files_q': dict(files=240),
@@ -315,7 +320,13 @@ def lines_family(name, seed=1):
     env = None
     if fam.get('files'):
         fp = os.path.join(workdir('cgt_' + name), 'files.ndjson')
-        _write_line_files(fp, fam['files'], seed)
+        if fam.get('perm'):
+            import itertools
+            with open(fp, 'w') as f:
+                for pm in itertools.permutations(fam['perm']):
+                    f.write(json.dumps({'lines': list(pm)}) + '\n')
+        else:
+            _write_line_files(fp, fam['files'], seed)
         env = {'LINESFILE': fp}
     m = tlc('MC_Lines', cfg, workers=8, timeout=3000, env=env)
     log(f'[tlc] MC_Lines/{name}: refinement Lines => Cgt held for every order of the lines on {m["states"]} distinct states, '
